@@ -126,23 +126,23 @@ def check_tables(cases):
         under = (ifdir + "/").startswith(cfgdir + "/")
         if (idr != "%UNSPEC%") != under or under and idr != posixpath.relpath(ifdir, cfgdir):
             raise MachineryError(f"Layout: RelStr({cfgdir},{ifdir}) = {idr!r} disagrees with posixpath")
-        # code-shaped bindings
-        want = posixpath.dirname(m["param"]) or "."
-        if c["impl"]["ConfigDir"] != want:
-            raise MachineryError(f"Layout: filepath.Dir({m['param']!r}) modelled as {c['impl']['ConfigDir']!r}, posixpath says {want!r}")
-        under_cwd = (ifdir + "/").startswith(cwd + "/")
-        want = posixpath.relpath(ifdir, cwd) if under_cwd else "."
+        # code-shaped bindings (config.go after 77bca2b: everything from the absolute path of the file in use)
+        if c["impl"]["ConfigDir"] != cfgdir:
+            raise MachineryError(f"Layout: code-shaped ConfigDir {c['impl']['ConfigDir']!r} is not the directory of the file in use")
+        want = posixpath.relpath(ifdir, cfgdir) if under else "."
         if c["impl"]["InterfaceDirRelative"] != want:
             raise MachineryError("Layout: code-shaped InterfaceDirRelative disagrees with posixpath")
-        if m["mode"] in ("flag_rel", "env_rel"):
+        if m["mode"] in ("flag_rel", "env_rel", "flagenv_rel"):
             want = posixpath.relpath(cfgdir + "/" + m["cfgname"], cwd)
             if m["param"] != want:
                 raise MachineryError(f"Layout: relative config parameter {m['param']!r} != {want!r}")
-        elif m["mode"] in ("flag_abs", "env_abs"):
+        elif m["mode"] in ("flag_abs", "env_abs", "flagenv_abs"):
             if m["param"] != cfgdir + "/" + m["cfgname"]:
                 raise MachineryError("Layout: absolute config parameter is wrong")
         elif m["param"] != "":
             raise MachineryError("Layout: search mode with a config parameter")
+        if m["mode"].startswith("flagenv") != bool(m["envparam"]) or m["envparam"] and m["envparam"] != m["decoy"] + "/" + m["decoyname"]:
+            raise MachineryError("Layout: MOCKERY_CONFIG of a flag+env layout does not name the decoy file")
 
 
 # ---------------------------------------------------------------------------------------------- worlds
@@ -222,12 +222,14 @@ class World:
         if m["decoy"]:
             decoy = {"template": "testify", "dir": "{{.InterfaceDir}}/DECOY", "filename": "decoy_{{.InterfaceName}}.go",
                      "packages": {p: {"interfaces": {i: {} for i in v["interfaces"]}} for p, v in conf["packages"].items()}}
-            files[os.path.relpath(self.sub(m["decoy"]) + "/.mockery.yml", R)] = json.dumps(decoy, ensure_ascii=False)
+            files[os.path.relpath(self.sub(m["decoy"]) + "/" + m["decoyname"], R)] = json.dumps(decoy, ensure_ascii=False)
         vlib.write_files(R, files)
         self.before = set(vlib.tree_hash(R))
         self.args, self.env = [], {}
         if m["mode"].startswith("flag"):
             self.args = ["--config", self.sub(m["param"])]
+            if m["envparam"]:            # flag and environment together: the command line wins
+                self.env = {"MOCKERY_CONFIG": self.sub(m["envparam"])}
         elif m["mode"].startswith("env"):
             self.env = {"MOCKERY_CONFIG": self.sub(m["param"])}
         self.cwd = self.sub(m["cwd"])
@@ -342,13 +344,14 @@ class Judge:
         self.lock = threading.Lock()
         self.n_split = 0
         self.hang_confirmed = False
+        self.noted_decoy = False
         self.levels = collections.Counter()
         self.max_runs = 20000
 
     def sig(self, c, kind, **kw):
         m = c["meta"]
         s = {"kind": kind, "sid": m["sid"][:2] if m["sid"][0] in "BTLD" else "res", "mode": m["mode"],
-             "layout_class": layout_class(m), "d14": d14_of(c), "template": "testify" if m["tmpl"] == "testify" else "custom"}
+             "layout_class": layout_class(m), "predicted_deviation": d14_of(c), "template": "testify" if m["tmpl"] == "testify" else "custom"}
         s.update(kw)
         return s
 
@@ -383,6 +386,13 @@ class Judge:
                       "run": res.brief(), "hook": evs[-3:] if evs else None, "new_files": new[:20],
                       "documented_bindings": c["data"], "code_shaped_bindings": c["impl"]}
             if decoy_used:
+                if c["meta"]["decoy_may_win"]:
+                    # both file names in one directory: the documentation does not say which one is the config
+                    if not self.noted_decoy:
+                        self.noted_decoy = True
+                        ctx.note("drift: with .mockery.yaml and .mockery.yml in one directory the .yml file was used "
+                                 "(code-shaped model: .yaml first; the contract accepts either)")
+                    continue
                 ctx.violation(self.sig(c, "wrong-config-file"), detail)
                 continue
             if res.panicked:
@@ -531,9 +541,12 @@ def run(ctx):
         raise MachineryError(f"vacuous: expectation kinds missing: {need - set(kinds)}")
     if not any(c["expect"]["n"] >= 3 for c in cases) or not any(qdepth(c["vals"]["structname"]) >= 2 for c in cases):
         raise MachineryError("vacuous: no multi-level escapes / no value needing three passes")
-    if not any(c["meta"]["dev_configdir"] and "ConfigDir" in c["uses"] for c in cases) or \
-            not any((not c["meta"]["dev_configdir"]) and (not c["meta"]["cwd_is_cfgdir"]) and "ConfigDir" in c["uses"] for c in cases):
-        raise MachineryError("vacuous: ConfigDir never exercised with a config file away from the working directory")
+    for var in ("ConfigDir", "InterfaceDirRelative"):
+        if not any(c["meta"]["found_above"] and var in c["uses"] for c in cases) or \
+                not any((not c["meta"]["found_above"]) and (not c["meta"]["cwd_is_cfgdir"]) and var in c["uses"] for c in cases):
+            raise MachineryError(f"vacuous: {var} never exercised with a config file away from the working directory")
+    if not any(c["meta"]["mode"].startswith("flagenv") for c in cases) or not any(c["meta"]["decoy_may_win"] for c in cases):
+        raise MachineryError("vacuous: no layout with flag and MOCKERY_CONFIG together / with both config file names in one directory")
     if not any(c["expect"]["kind"] == "ok_or_error" and c["predict"]["kind"] == "error" for c in cases) or \
             not any(c["expect"]["kind"] == "ok_or_error" and c["predict"]["n"] == 19 for c in cases):
         raise MachineryError("vacuous: no slowly converging value on either side of the code's iteration cap")
@@ -673,18 +686,20 @@ def run(ctx):
             print("DEBUG note", n[:300], file=sys.stderr)
 
     # ------------------------------------------------------------------ evidence
-    nontrivial = {json.dumps(c["vals"], sort_keys=True) + c["meta"]["lid"] for c in all_cases if c["expect"]["n"] != 1 or d14_of(c)}
+    nontrivial = {json.dumps(c["vals"], sort_keys=True) + c["meta"]["lid"] for c in all_cases if c["expect"]["n"] != 1 or not c["meta"]["cwd_is_cfgdir"]}
     ctx.cov["distinct_nontrivial"] = len(nontrivial)
     ctx.cov["rule"] = ("one case = (layout, package dir, interface, five templated values); non-trivial = needs other than "
-                       "exactly one changing pass, or touches a binding where code and documentation are known to differ")
+                       "exactly one changing pass, or has its config file somewhere else than in the working directory")
     for c in (all_cases[0], next(c for c in all_cases if c["expect"]["kind"] == "error"),
-              next(c for c in all_cases if c["expect"]["n"] >= 4), next(c for c in all_cases if d14_of(c))):
+              next(c for c in all_cases if c["expect"]["n"] >= 4),
+              next(c for c in all_cases if c["meta"]["found_above"] and "ConfigDir" in c["uses"])):
         ctx.sample({"id": c["id"], "config_entry": {CFGKEY[p]: tok_text(c["vals"][p]) for p in PARAMS},
                     "expect": c["expect"], "code_shaped_prediction": c["predict"]})
     ctx.assumptions += [
         "templated values are built from the token alphabet of TemplateResolve.tla (literal, variable, function pipeline, "
         "escaped braces); the only cross reference the code offers is {{.StructName}}",
-        "layouts: tree of spec/Layout.tla (depth 3), cwd inside the module, one real config file and at most one decoy",
+        "layouts: tree of spec/Layout.tla (depth 3), cwd inside the module, one real config file and at most one decoy "
+        "(found by search, --config, MOCKERY_CONFIG, flag and environment together, both file names in one directory)",
         "ConfigDir / InterfaceDir / template-schema are compared by the location they denote (relative spellings are "
         "resolved against the working directory), not by spelling",
         "function semantics (lower, snakecase, ...) are tables recomputed in Python; C16 owns them",
